@@ -299,6 +299,9 @@ def expand(item, seed):
                    "prior": prior, "refuse_first": True}
         yield {"hops": _chain(0, _final()), "limit": None, "subprotocols": None, "api": "connect", "fault": None, "timeout": 2 * S, "seed": 1,
                "refuse_first": True}
+        for sel in ("\u212aafka", "\u212aAFKA", "kafka", "KAFKA"):
+            yield {"hops": [_final(proto=sel)], "limit": None, "subprotocols": ["kafka", "chat"], "api": "connect",
+                   "fault": None, "timeout": 2 * S, "seed": 1}
         for offered in (["chat"], ["chat", "superchat"], ["Chat"]):
             for sel in (None, "chat", "CHAT", "superchat", "other", "chat, superchat", ""):
                 yield {"hops": [_final(proto=sel)], "limit": None, "subprotocols": offered, "api": "connect",
@@ -350,7 +353,8 @@ def gen(rng):
     sub = None
     if rng.random() < 0.35:
         sub = rng.choice((["chat"], ["chat", "superchat"], ["v1.proto", "v2.proto"], ["Chat"]))
-        final["proto"] = rng.choice((None, sub[0], sub[-1], sub[0].upper(), "other", "", sub[0] + "x"))
+        final["proto"] = rng.choice((None, sub[0], sub[-1], sub[0].upper(), "other", "", sub[0] + "x",
+                                     sub[0].replace("k", "\u212a").replace("K", "\u212a")))
     elif rng.random() < 0.1:
         final["proto"] = "unsolicited"
     hops = _chain(n, final, REDIRECTS)
@@ -484,7 +488,8 @@ def run(sc, choices=None):
             why_invalid = "no Sec-WebSocket-Accept header (a name with U+212A in it is another name)"
         elif last.accept_value() != R.accept_for(last.key or ""):
             why_invalid = "accept value not derived from this request's key"
-        elif offered and (sel is None or sel.lower() not in [o.lower() for o in offered]):
+        elif offered and (sel is None or not sel.isascii() or sel.lower() not in [o.lower() for o in offered]):
+            # (ASCII only: U+212A lower-cases to "k", but "\u212aafka" is not the offered "kafka")
             why_invalid = "no offered subprotocol selected"
         else:
             valid = True
